@@ -1814,7 +1814,7 @@ class Affine:
         if beta_array.size != self.size:
             raise ValueError('The sizes of the array and beta values do not match.')
 
-        return Convex(self, np.zeros(1), 'C', -1, params=beta)
+        return Convex(self, np.zeros(1), 'C', -1, params=beta_array)
 
     def square(self):
         """
@@ -2090,7 +2090,7 @@ class Affine:
             if q.size == 1:
                 q = np.array([q.flatten()[0]] * self.size)
             else:
-                q = q.reshape(affine.shape)
+                q = np.array(q).reshape(affine.shape)
         elif isinstance(q, (Vars, VarSub, Affine)):
             if affine.model is not q.model:
                 raise ValueError('Models mismatch.')
@@ -2734,6 +2734,9 @@ class PerspConvex(Convex):
                  multiplier=1):
 
         super().__init__(affine_in, affine_out, xtype, sign, multiplier)
+        if isinstance(affine_scale, np.ndarray):
+            # the values at declaration time, not a reference to user data
+            affine_scale = affine_scale.copy()
         self.affine_scale = affine_scale
 
     def __repr__(self):
@@ -3201,9 +3204,11 @@ class ExpConstr:
 
     def __init__(self, model, expr1, expr2, expr3):
         self.model = model
-        self.expr1 = expr1
-        self.expr2 = expr2
-        self.expr3 = expr3
+        # numeric terms are the values at declaration time, not references
+        # to user data
+        self.expr1 = expr1.copy() if isinstance(expr1, np.ndarray) else expr1
+        self.expr2 = expr2.copy() if isinstance(expr2, np.ndarray) else expr2
+        self.expr3 = expr3.copy() if isinstance(expr3, np.ndarray) else expr3
 
     def __repr__(self):
 
